@@ -33,7 +33,9 @@ SPEC = Spec(
          "underscore / space / hex prefix / exponent / empty / lone sign, at one signed and one unsigned 64-/32-bit site of a conforming document of "
          "each payload and request root; model predicts error vs value exactly) and LENGTH BOUNDARIES (sizeboundary, from 9 800 000: strings / bytes / "
          "packed lists / repeated messages of 128 and 16384 (thorough: 127, 128, 16383, 16384, 70000) in a message of every protogen package "
-         "reachable from each of the 12 roots) and TEXT LEAVES (txtleaf, from 9 900 000: ids — mixed / upper case, quoted, zero written out, "
+         "reachable from each of the 12 roots), NUMBERS IN UNKNOWN MEMBERS (skipnum, from 9 950 000: 26 number literals — exponent forms inside and "
+         "beyond the float64 range, plain digit strings of any magnitude, fractions — at the top level, inside an unknown array / object and inside a "
+         "known sub-message of every root; jsoniter's Skip validates exponent literals with ReadFloat64, the model predicts error vs value exactly) and TEXT LEAVES (txtleaf, from 9 900 000: ids — mixed / upper case, quoted, zero written out, "
          "2n+1 / 4n characters, newline / space inside, lone quote — and base64 — CR LF anywhere incl. inside the padding and MIME folding of the "
          "value's own encoding, url-safe alphabet, missing / misplaced / surplus padding, non-zero trailing bits — at one id / bytes site of a "
          "conforming document of each payload and request root). "
@@ -54,6 +56,9 @@ SPEC = Spec(
         "CR/LF skipping) with C08_hexid_roundtrip / C08_base64_roundtrip for every id size and every byte string — NOTHING about a non-float "
         "text leaf is assumed; encoding/hex and encoding/base64 themselves are stdlib code represented by hexEnc/hexDec/b64enc/b64dec, tied by "
         "the txtleaf block, the malformed-JSON block and every value case",
+        "jsoniter's strict Skip (`default: iter.Skip()` of every reader) is a MODEL function (skipOk): digits and one dot are scanned by the "
+        "skipper itself, every other number literal (exponent forms) is read with ReadFloat64 = strconv.ParseFloat, so an unknown member holding "
+        "`1e400` fails the whole document; tied by the always-on skipnum block (from 9 950 000) and the tree-mutation stream",
         "jsoniter lexer, encoding/json string escaping; UTF-8 validity of strings is assumed (invalid UTF-8 is replaced by jsonpb). jsoniter's "
         "INTEGER token reader (readUint64/readUint32 digit loop incl. its incomplete overflow test, ReadInt64/ReadInt32 sign and range checks) and "
         "strconv.ParseInt/ParseUint base 10 are now MODEL functions (parseNum / parseInt), tied by the intspell block and the variant streams",
